@@ -816,8 +816,37 @@ class GatherMixin:
             st.assume(z3.ForAll(q, zsel(h, q) == coerce_scalar(v, dt), patterns=[zsel(h, q)]))
         return arr
 
+    def b_scipy_ndimage_binary_dilation(self, args, kw, st, n):
+        """scipy.ndimage.binary_dilation(a, structure=np.ones((w, w)), iterations=1) for an ODD w (ASSUMED contract): out[y, x]
+        iff some a[p, q] holds with |p - y| <= w // 2, |q - x| <= w // 2 inside the array (border_value 0)"""
+        a = args[0]
+        stru = kw.get("structure", args[1] if len(args) > 1 else None)
+        it_ = kw.get("iterations", 1)
+        if not (is_arr(a) and arr_dt(a) == "b" and len(shape_of(a)) == 2 and stru is not None and is_arr(stru)
+                and len(shape_of(stru)) == 2 and it_ == 1):
+            raise Unsupported("binary_dilation form (line %d)" % n.lineno)
+        w0, w1 = shape_of(stru)
+        if not self.spec:
+            self.emit(st, "pre@call", "binary_dilation.odd.L%d" % n.lineno,
+                      z3.And(zi(w0) == zi(w1), zi(w0) % 2 == 1, zi(w0) >= 1), n,
+                      "the structuring element is a square of odd size (the assumed contract of binary_dilation is stated for it)")
+        src = frozen(a, st)
+        n0, n1 = shape_of(a)
+        r = zi(w0) / 2
+
+        def get(ix, st2, src=src, n0=n0, n1=n1, r=r):
+            p, q = z3.Int(fresh_name("dp")), z3.Int(fresh_name("dq"))
+            y, x = zi(ix[0]), zi(ix[1])
+            return z3.Exists([p, q], z3.And(p >= y - r, p <= y + r, q >= x - r, q <= x + r, p >= 0, p < zi(n0), q >= 0, q < zi(n1),
+                                            zb(as_bool(elem(src, [p, q], st2)))))
+        return LArr("b", [n0, n1], get, None, name="dilation")
+
+    b_binary_dilation = b_scipy_ndimage_binary_dilation
+
     def b_xarray_DataArray(self, args, kw, st, n):
         data = args[0] if args else kw.get("data")
+        if data is None and not args and not kw:
+            return SData(None, dims=[])     # xr.DataArray(): an empty placeholder
         if not (is_arr(data) or isinstance(data, SList)):
             raise Unsupported("xr.DataArray of %r (line %d)" % (type(data), n.lineno))
         if isinstance(data, LArr):
